@@ -76,14 +76,17 @@ class Check(PropertyCheck):
     pid = "C09"
     props_module = "Properties.Properties_C09"
     extra_targets = ["Extract/ExtractSchedX.vo"]
-    gen_files = ["SchedXTab.v", "Consts.v"]
+    gen_files = ["SchedXTab.v", "Consts.v", "DecTabs.v", "CrcTab.v"]
     trusted_base = [
         "Coq 8.16.1 kernel (coqc); no axioms",
         "translator lib/gen_schedx.py (guards, task order, capacities, slot formulas, re-enqueue tests)",
         "hand-written model SchedX/XModel.v tied by trace replay (shared with C10)",
-        "the results of parse/retrieve/emit are functions of (stream, bit position) and the concatenation of the output "
-        "buffers of a block does not depend on out_granul: hypotheses of the process-level theorem (codec layer: resumable "
-        "= one-shot), supported here only by the cross-configuration runs of the real binary",
+        "the results of parse/retrieve/emit are functions of (stream, bit position): hypothesis (oracle O) of the process-level "
+        "theorems; the two codec-layer facts it rests on are theorems about other models - emit() over any buffer sizes "
+        "(C09_codec_output_buffer_sizes, array-level model Safe/EmitModel.v tied to decode.c by C08's harness safe_h_emit.c) and "
+        "chunked feeding of bit-reader programs (C09_codec_input_chunking, Dec/Prog.v readers; the real retrieve()'s save/restore "
+        "of its local state at MORE is NOT modelled statement by statement) - the link between them and the oracle is supported "
+        "by the cross-configuration runs of the real binary with many in/out granules",
         "output mode: the byte sequence handed to xwrite() is what the theorem speaks about; that stdout/file/-c/-t only "
         "differ in where xwrite() sends it is checked by the direct runs, not proved",
     ]
